@@ -7,6 +7,10 @@ under each policy.  Oracle: mc/ref/sampler.py evaluated on the implementation's 
 E3 (script-object history): a script goes through copy() / copy.deepcopy / trajectory.script and is THEN given new
 settings through the public setters; the contract is evaluated on the FINAL settings (default t_max = last requested
 time of the final list), differential against a script built directly with those settings.
+E5 (completion by t_max): the engine clock is read after every iterate() of the per-iteration run: every call that
+advanced the clock is a step and must have its record (so the step list the contract is evaluated on is complete, incl.
+the completing step); a run that ended beyond t_max must cover every requested time not beyond t_max; Gillespie runs of
+a system that stays active, ending by t_max, under all policies, with requests up to and equal to t_max.
 E4 (tiny interval): on_interval with intervals far below the step (2^-31 .. 2^-40, 1e-9, "1 ns"): every step holds a
 new multiple of the interval, so every step (event) is the first one at or after a multiple and must be recorded.
 """
@@ -30,6 +34,7 @@ MAX_ITER = 4000
 TINY_INTERVALS = [2.0 ** -31, 2.0 ** -33, 2.0 ** -40, 1e-9, "1 ns"]
 UNIT_S = {"s": 1.0, "ms": 1e-3, "ns": 1e-9, "min": 60.0, "h": 3600.0}
 # script-object history: the script every history starts from, the routes it goes through and the setter edits
+EXPLICIT_LONG = ["PIPIIP", "PPIPIIPP", "IPIPIPIP", "PIIPPIIIP"]     # several sample() calls separated by iterations
 HIST_INIT = {"t_sample": [0, 0.5, 1.0], "dt": DT, "policy": "on_t_sample", "interval": 0.375}
 HIST_ROUTES = ["same", "copy", "deepcopy", "copy-copy", "traj"]
 HIST_ATTR = {"t_sample": "t_sample", "time_step": "dt", "sampling_policy": "policy", "sampling_interval": "interval", "t_max": "t_max"}
@@ -85,10 +90,12 @@ def drive(engine, script, ops=None):
     n = script.system.state_size()
     if ops is None:
         k = 0
+        obs.append(eng.raw_time(engine))          # engine clock after setup and after every iterate()
         while k < MAX_ITER:
             k += 1
             r = engine.iterate()
             rets.append(bool(r))
+            obs.append(eng.raw_time(engine))
             if not r:
                 break
     else:
@@ -112,7 +119,7 @@ def _baseline(key):
     script = mk_script(case, policy="on_iteration")
     rets, obs, out, complete = drive(eng.make_engine(case["engine"]), script)
     T, X = models.traj_arrays(out)
-    return T, X, len(rets), complete
+    return T, X, len(rets), complete, obs
 
 
 def baseline(case):
@@ -228,7 +235,7 @@ def check_case(case):
     case0, case = case, effective(case)
     tag = "%s:%s" % (case["sub"], case["policy"])
     try:
-        T, X, n_iter_base, comp_base = baseline(case)
+        T, X, n_iter_base, comp_base, clock = baseline(case)
     except Exception as e:
         return [("C09:baseline:unexpected-exception", "%s: %s" % (type(e).__name__, e))]
     nsp, ncell = 2, 2
@@ -240,6 +247,14 @@ def check_case(case):
     if "ops" not in case and len(T) - 1 > n_iter_base:
         out.append(("C09:baseline:%s:more-records-than-iterations" % case["engine"], "%d records for %d iterate() calls" % (len(T), n_iter_base)))
         return out
+    # per-iteration sampling records every step: every iterate() call that advanced the engine clock is a step (the
+    # completing one included) and must have its record, at the clock time
+    steps = [clock[0]] + [b for a, b in zip(clock, clock[1:]) if b > a]
+    if len(steps) != len(T) or any(abs(a - b) > 1e-12 * max(abs(a), abs(b)) for a, b in zip(steps, T)):
+        miss = [c for c in steps if not any(abs(c - v) <= 1e-12 * max(abs(c), abs(v)) for v in T)]
+        out.append(("C09:baseline:%s:per-iteration-step-not-recorded" % case["engine"],
+                    "on_iteration: the engine clock advanced to %r (last: %r, complete=%r) over %d iterate() calls, records at %r; step(s) without record: %r"
+                    % (steps[-4:], clock[-1], comp_base, n_iter_base, T[-4:], miss[-4:])))
     exact = bool(case.get("exact", True))
     dt = as_seconds(case.get("dt", DT))
     reqs = req_seconds(case["t_sample"])
@@ -279,6 +294,15 @@ def check_case(case):
             out.append(("C09:%s:driver-return" % tag, "iterate() returns %r" % (rets,)))
         if not complete:
             out.append(("C09:%s:not-complete" % tag, "is_complete() is False after the loop ended"))
+        # a run that went beyond t_max (engine clock after the last iterate()) has a step at or after every requested
+        # time not beyond t_max: each of them must be covered by a record (independent of the per-iteration run)
+        if case["policy"] == "on_t_sample" and tmax_v is not None and tmax_v >= 0 and obs and obs[-1] > tmax_v * (1 + (0 if exact else 1e-9)):
+            slack = 0.0 if exact else 1e-9
+            unc = [r for r in reqs if r <= tmax_v * (1 - slack) - (0 if exact else 1e-300) and not any(v >= r * (1 - slack) for v in t)]
+            if unc:
+                out.append(("C09:%s:requested-time-not-covered" % tag,
+                            "the run ended at clock %.17g > t_max %.17g but requested time(s) %r (not beyond t_max) have no record at or after them; "
+                            "%d records, last at %r | requests %r" % (obs[-1], tmax_v, unc[:4], len(t), t[-1] if t else None, reqs[-6:])))
     idx, badj = map_records(T, X, t, d)
     if idx is None:
         out.append(("C09:%s:record-is-not-a-step-state" % tag,
@@ -402,6 +426,25 @@ def gen_history(tier, engines, gtypes, sd):
                         yield c
 
 
+def gen_gillespie_tmax(tier, gtypes, seed0):
+    """The system of spec_for (reversible reaction + diffusion, 16 molecules) never runs out of events: the run ends
+    because an event falls beyond t_max.  Requests lie up to and ON t_max (default t_max = last request), t_max also
+    between two requests and beyond the last one.  Requests / t_max reach the engine unchanged (default units) and the
+    event times are whatever the engine draws, so float comparisons are exact."""
+    seeds = list(range(1000 * seed0 + 10, 1000 * seed0 + (14 if tier == "quick" else 18)))
+    lists = [[0.1 * i for i in range(25)], [0, 0.5, 1.0, 1.5, 2.0], [0.25, 2.0, 2.0], [1.0]]
+    pols = (("on_t_sample", {}), ("on_iteration", {}), ("on_interval", {"interval": 0.125}), ("on_interval", {"interval": 0.375}), ("no_sampling", {}))
+    for g in gtypes:
+        for pol, extra in pols:
+            for lst in lists:
+                for tm in ("default", lst[-1], 1.75, 3.0):
+                    for s_ in seeds:
+                        c = {"sub": "gillespie-tmax", "policy": pol, "engine": "gillespie", "gtype": g, "t_sample": lst,
+                             "t_max": tm, "seed": s_, "exact": True}
+                        c.update(extra)
+                        yield c
+
+
 def gen_cases(tier, seed0):
     engines = ["euler", "tauleap", "gillespie"]
     gtypes = ["grid", "graph"]
@@ -482,15 +525,24 @@ def gen_cases(tier, seed0):
     # script-object history: copy() / deepcopy / trajectory.script, then the public setters, then the run
     for c in gen_history(tier, engines, gtypes, sd):
         yield c
-    # explicit sample() calls: all {I,P} histories up to depth 6 (quick: 5)
+    # Gillespie runs of a system that stays active, ending by t_max, all policies, requests up to and equal to t_max
+    for c in gen_gillespie_tmax(tier, gtypes, seed0):
+        yield c
+    # explicit sample() calls: all {I,P} histories up to depth 6 (quick: 5) + longer ones with several sample() calls
+    # separated by iterations, on both space types (grid first: its seeds stay what they were)
     depth = 5 if tier == "quick" else 6
-    for e in engines:
-        for pol, extra in (("no_sampling", {}), ("on_t_sample", {}), ("on_iteration", {}), ("on_interval", {"interval": 0.375})):
-            for n in range(1, depth + 1):
-                for ops in itertools.product("IP", repeat=n):
-                    k += 1
-                    c = {"sub": "explicit", "policy": pol, "engine": e, "gtype": "grid", "t_sample": [0.125, 0.5],
-                         "t_max": 0.6, "seed": sd(e, k), "exact": True, "ops": "".join(ops)}
+    for g in gtypes:
+        for e in engines:
+            for pol, extra in (("no_sampling", {}), ("on_t_sample", {}), ("on_iteration", {}), ("on_interval", {"interval": 0.375})):
+                hist = ["".join(ops) for n in range(1, depth + 1) for ops in itertools.product("IP", repeat=n)]
+                for ops in hist + [h for h in EXPLICIT_LONG if h not in hist]:
+                    if g == "grid" and ops in EXPLICIT_LONG and len(ops) > depth:
+                        k2 = k + 7        # added later: does not move the counter of the older cases
+                    else:
+                        k += 1
+                        k2 = k
+                    c = {"sub": "explicit", "policy": pol, "engine": e, "gtype": g, "t_sample": [0.125, 0.5],
+                         "t_max": 0.6, "seed": sd(e, k2), "exact": True, "ops": ops}
                     c.update(extra)
                     yield c
 
@@ -510,6 +562,16 @@ def _work(job):
         if case["sub"] == "history" and case["init"]["t_max"] == "default" and case["route"] != "same" \
                 and any(a == "t_sample" for a, _ in case["edits"]) and not any(a == "t_max" for a, _ in case["edits"]):
             acc.count("history:default-t_max-script-duplicated-then-given-new-times")
+        if case["sub"] == "gillespie-tmax":
+            try:
+                bl = baseline(case)
+                tm = req_seconds(case["t_sample"])[-1] if case["t_max"] == "default" else as_seconds(case["t_max"])
+                if bl[3] and bl[4][-1] > tm:
+                    acc.count("gillespie-tmax:run-ended-by-an-event-beyond-t_max")
+            except Exception:
+                pass
+        if case["sub"] == "explicit" and case["policy"] == "no_sampling" and "PIP" in case["ops"].replace("PP", "P"):
+            acc.count("explicit:%s:no_sampling-with-sample-calls-separated-by-iterations" % case["gtype"])
         for key, what in res:
             acc.violation(key, what, case)
     if lo == 0:
@@ -540,6 +602,7 @@ def run(ctx):
     for c in _CASES:
         per_sub[c["sub"]] = per_sub.get(c["sub"], 0) + 1
     n_tiny, n_hist = per_sub.get("interval-tiny", 0), per_sub.get("history", 0)
+    n_gt, n_ex = per_sub.get("gillespie-tmax", 0), per_sub.get("explicit", 0)
     all_done = done == len(_CASES)
     ctx.subspace("tiny interval: on_interval with interval in {2^-31, 2^-33, 2^-40, 1e-9, '1 ns'} x dt {0.5, 0.25} x t_max {4, 2.7} "
                  "x 3 engines x {grid,graph}: t/interval crosses 2^31 during the run, every step / event holds a new multiple",
@@ -549,17 +612,24 @@ def run(ctx):
                  "property (t_sample longer/shorter/single, time_step, sampling_policy (+ sampling_interval), t_max) x 3 engines x "
                  "{grid,graph}; judged on the final settings against a directly built script",
                  n_hist, n_hist if all_done else 0, exhaustive=all_done)
+    ctx.subspace("completion by t_max: gillespie x {grid,graph} x {on_t_sample, on_iteration, on_interval 1/8 and 3/8, no_sampling} x 4 "
+                 "request lists (0.1*i for i < 25; lattice; duplicates on t_max; single) x t_max {default = last request, explicit "
+                 "last request, 1.75, 3} x %d seeds; system that never runs out of events" % (4 if ctx.tier == "quick" else 8),
+                 n_gt, n_gt if all_done else 0, exhaustive=all_done)
+    ctx.subspace("explicit sample() calls: all {iterate,sample} histories to depth %d + %d longer ones x 4 policies x 3 engines x "
+                 "{grid,graph}" % (5 if ctx.tier == "quick" else 6, len(EXPLICIT_LONG)), n_ex, n_ex if all_done else 0, exhaustive=all_done)
     nl = len(_lists(3 if ctx.tier == "quick" else 4, LATTICE, 0))
     ctx.subspace("all %d non-decreasing request lists (length 0..%d) over the lattice {0,1/8,..,5/4} x 6 t_max values x 3 engines "
                  "x {grid,graph}; 5 intervals x 5 t_max; on_iteration / no_sampling; explicit quantities in ms/min/h; dt=0.1 "
-                 "near-tie pass; all {iterate,sample} histories to depth %d x 4 policies x 3 engines"
-                 % (nl, 3 if ctx.tier == "quick" else 4, 5 if ctx.tier == "quick" else 6),
-                 len(_CASES) - n_tiny - n_hist, max(0, done - n_tiny - n_hist) if not all_done else len(_CASES) - n_tiny - n_hist,
+                 "near-tie pass"
+                 % (nl, 3 if ctx.tier == "quick" else 4),
+                 len(_CASES) - n_tiny - n_hist - n_gt - n_ex, (len(_CASES) - n_tiny - n_hist - n_gt - n_ex) if all_done else 0,
                  exhaustive=all_done)
     ctx.rule("one case per (engine, space type, policy, request list / interval / op history, t_max, seed); non-trivial = "
              "at least one request or an explicit-call history; every recorded sample is mapped onto the step sequence of "
              "the per-iteration run and compared with the required/allowed sets of the reference contract")
-    ctx.assume("step sequence (T_k, X_k) taken from the implementation's own per-iteration run with the same seed; exact "
+    ctx.assume("step sequence (T_k, X_k) taken from the implementation's own per-iteration run with the same seed, checked "
+               "to hold one record per iterate() call that advanced the engine clock; exact "
                "decisions on the dyadic lattice, near-tie rule (1e-9) elsewhere")
 
 
